@@ -105,13 +105,32 @@ func (c *FnCtx) doCallVals(p *Path, call *ssa.CallCommon, fnv Val, args []Val, p
 	// unknown function value: universal callee
 	origin := fnv.Origin
 	if origin == "" {
+		// a local variable holding the function value
+		for n, v := range p.top().named {
+			if v.K == KFunc && v.T == fnv.T {
+				origin = n
+			}
+		}
+	}
+	if origin == "" {
 		origin = "?"
 	}
 	c.checkNonNil(p, fnv.T, "call of nil func")
 	c.bumpCalls(p, origin)
 	name := "funcvalue:" + origin
-	if fc := c.eng.lookupFuncValueSpec(c.fn, origin); fc != nil {
-		return c.applyContract(p, fc, nil, args, resT, name, pos)
+	if fc := c.eng.lookupFuncValueSpec(p.top().fn, origin); fc != nil {
+		c.extraEnv = c.frameEnv(p, p.top(), nil)
+		outs := c.applyContract(p, fc, nil, args, resT, name, pos)
+		c.extraEnv = nil
+		for _, o := range outs {
+			if !o.panic && len(o.ret) > 0 {
+				if o.p.fnret == nil {
+					o.p.fnret = map[string]Val{}
+				}
+				o.p.fnret[origin] = o.ret[0]
+			}
+		}
+		return outs
 	}
 	c.defaults[name] = true
 	c.note("call of unknown function value '" + origin + "' in " + c.fn.Name() + ": assumed not to modify state this function can observe; may panic")
